@@ -17,6 +17,12 @@ def body(c):
         fam = importlib.import_module("families." + name)
         if not hasattr(fam, "run_fault"):
             continue
+        if c.replay:
+            # a replay file belongs to the family whose driver wrote it
+            base = c.replay.rsplit("/", 1)[-1]
+            owns = getattr(fam, "owns_replay", lambda p, n=name: p.rsplit("/", 1)[-1].startswith(n))
+            if not owns(c.replay):
+                continue
         exe = fam.build(c)
         if c.replay:
             for it in fam.replay(c, exe, c.replay):
